@@ -74,4 +74,5 @@ def main():
         print("\n".join(A))
 
 
-main()
+if __name__ == "__main__":
+    main()
